@@ -45,7 +45,7 @@ const c02Finding = "C02-positional-capture"
 // terms
 
 type c02_ct struct {
-	K  string // i n F ch v + fn c l x m k r d a ret | if sw case default loop b
+	K  string // i n F ch v + fn c l x m k r d a ret retif | if sw case default loop b
 	S  string // name / route kind / loop kind
 	I  int64
 	Ps []string
@@ -257,6 +257,8 @@ func c02Stmt(t *c02_ct) string {
 		return strings.Join(t.Ps, ", ") + " := " + c02Expr(t.C[0])
 	case "ret":
 		return "return " + c02Expr(t.C[0])
+	case "retif":
+		return "if " + c02Expr(t.C[0]) + " { return " + c02Expr(t.C[1]) + " }"
 	case "if":
 		out := "if " + c02Expr(t.C[0]) + " " + c02Body(t.C[1].C)
 		if len(t.C[2].C) > 0 {
@@ -2235,13 +2237,18 @@ func c02_runC02(e *Env) {
 		"(try at the top level with 0-2 wrapper frames, a function containing the try, plain calls, vm.Call from Go where a failed call is recorded as -1 and the VM is used further) " +
 		"mixing failing and succeeding attempts at equal and different call depths, and uses of the closures the successful attempts returned. " +
 		"A fourth stream: operation sequences of the frame machine (oracle request frames) against the variable machine and a Go reference (non-trivial: a cell exists and an activation was aborted or its owner stored after the capture). " +
+		"A fifth stream (c02rec.go): 1-2 recursive functions f(n, a, acc) — referring to themselves through the self slot of a named function, through a global, or as a named function nested in another function — " +
+		"whose every level owns 1-2 int variables (at most / more than 8 local slots), creates 1-2 closures over them and over its parameters (by itself, in a callee, in a list.map callback), writes the variables and calls the closures afterwards, " +
+		"appends the closures to the list handed to the next level (and to a global list), and calls itself in tail position (`if n { return f(n + -1, …) }`, as the last statement after a base case, through a local alias), " +
+		"not in tail position (result used afterwards, `return f(…) + […]`), through a partner function (mutual recursion) or from inside a list.map callback / try thunk, to depth 0-4; started by a plain call, a wrapper, try, a spawned thread, a list.map callback or vm.Call from Go; " +
+		"then 3-9 uses of the closures of the different levels (direct, list.map, the global list, from Go); recursion chains of depth 1-12 on the frame machine (oracle request frames: the loads must be the values the levels stored). " +
 		"A case is one program (+ host steps); distinct by its text; non-trivial when the real bytecode creates a cell and reads or " +
 		"writes a free variable"
 	n := 6000
 	if !e.Quick {
 		n = 100000
 	}
-	for _, c := range append(append(append(c02Directed(), c02DirectedHost()), c02DirectedForms()...), c02DirectedBlocks()...) {
+	for _, c := range append(append(append(append(c02Directed(), c02DirectedHost()), c02DirectedForms()...), c02DirectedBlocks()...), c02DirectedRecursion()...) {
 		v := c02RunCase(e, c, true)
 		c02Flush()
 		e.R.H("directed", c.label+" => "+map[bool]string{true: "violates", false: "ok"}[v.spec != ""])
@@ -2264,6 +2271,18 @@ func c02_runC02(e *Env) {
 	}
 	c02FrameCases(e, frRng, nFr)
 	c02ScenarioCases(e, scnRng, nScn, scnBudget)
+	// fifth stream (c02rec.go): functions that call themselves and create closures at every level
+	nRec, recBudget := 700, 30*time.Second
+	if !e.Quick {
+		nRec, recBudget = 8000, 4*time.Minute
+	}
+	recRng, chainRng := e.Rng.Fork(), e.Rng.Fork()
+	nChain := 120
+	if !e.Quick {
+		nChain = 1500
+	}
+	c02ChainCases(e, chainRng, nChain)
+	c02RecursionCases(e, recRng, nRec, recBudget)
 	shrunk := 0
 	bad := 0
 	start := time.Now()
